@@ -204,12 +204,12 @@ const TheoryTerm& TheoryData::addTerm(Id_t termId, int number) {
 	return setTerm(termId) = TheoryTerm(number);
 }
 const TheoryTerm& TheoryData::addTerm(Id_t termId, const StringSpan& name) {
-	TheoryTerm& t = setTerm(termId);
 	// Align to 4-bytes to disable false-positives from valgrind
 	// in subsequent calls to strlen etc.
 	char* buf = new char[((name.size + 1 + 3)/4) * 4];
 	*std::copy(Potassco::begin(name), Potassco::end(name), buf) = 0;
-	return (t = TheoryTerm(buf));
+	try { return setTerm(termId) = TheoryTerm(buf); } // copy first: name may be the symbol of the term that setTerm() frees
+	catch (...) { delete [] buf; throw; }
 }
 const TheoryTerm& TheoryData::addTerm(Id_t termId, const char* name) {
 	return addTerm(termId, Potassco::toSpan(name, name ? std::strlen(name) : 0));
